@@ -223,10 +223,18 @@ def run(tier: str, seed: int) -> int:
         single = [c for c in cases if len(c['samples']) == 1]
         multi = [c for c in cases if len(c['samples']) > 1]
         cases = single + rng.sample(multi, min(len(multi), 330))
+    else:
+        # thorough: every sequence of one or two pointings in 8 (Stokes, nside) combinations, a seeded sample of 1500
+        # sequences of three in 2 combinations (TLC still covers all of them at design level)
+        short = [c for c in cases if len(c['samples']) <= 2]
+        long3 = [c for c in cases if len(c['samples']) > 2]
+        cases = short + rng.sample(long3, min(len(long3), 1500))
     for i, c in enumerate(cases):
         combos = [(s, n) for s in kinds for n in nsides]
         if tier == 'quick':
             combos = rng.sample(combos, 1)
+        else:
+            combos = rng.sample(combos, 8 if len(c['samples']) <= 2 else 2)
         for s, n in combos:
             j = dict(c, stokes=s, nside=n)
             j['id'] = fx.case_id({'l': c['layout'], 's': c['samples'], 'k': s, 'n': n})
@@ -235,7 +243,7 @@ def run(tier: str, seed: int) -> int:
     acc, n, dropped, checked = 0, 0, 0, 0
     samples = []
     for x64 in (True, False):
-        sub = jobs if (x64 or tier != 'quick') else jobs[::3]
+        sub = jobs if x64 else jobs[::3]
         res = fx.replay('c16', 'execute', sub, x64=x64, procs=fx.NPROC, chunksize=max(4, len(sub) // 64))
         by_id = {j['id']: j for j in sub}
         for r in res:
@@ -258,7 +266,7 @@ def run(tier: str, seed: int) -> int:
         'rule': 'cases = 6 detector layouts (1-2 detectors x 1-2 directions, exact unit vectors) x every sequence of <= MaxSamp '
                 'pointings out of 12 exact Z-Y-Z Euler triples (TLC) x Stokes kind x nside (all in thorough, 2 seeded '
                 'combinations per sequence in quick); non-trivial = more than one sample or more than one direction',
-        'exhaustive': tier != 'quick', 'emitted_sequences': len(gen.cases), 'tod_entries_checked': checked, 'entries_dropped_near_pixel_border': dropped,
+        'exhaustive': False, 'emitted_sequences': len(gen.cases), 'tod_entries_checked': checked, 'entries_dropped_near_pixel_border': dropped,
         'samples': samples,
     }, ['the pixel containing an exact direction is given by healpy.vec2pix (C17 binds furax to healpy); entries whose '
         'direction is within 1e-6 (x64) / 2e-3 (x32) of a pixel border are dropped and counted',
